@@ -13,6 +13,13 @@
 //! Oracle over the log (all case kinds): every auto summary names a base of a strictly earlier cut
 //! and reports the matching delta window, and two summaries of one cut whose jobs saw the same
 //! earlier checkpoints have identical text.
+//! Summary-fault cases: between compaction rounds the summary blob of the latest / an older / every /
+//! a manual checkpoint is deleted, truncated, overwritten with garbage, replaced by a directory, by
+//! JSON of another schema or by a legacy metadata-only placeholder text (also: a manual checkpoint
+//! whose text is such a placeholder); the thread grows and auto / schedule (store API, HTTP) runs
+//! again. Every summary written AFTER the fault must be readable and cover its cut, name a base of
+//! an earlier cut and report the window it read — all of 0..to_seq (count and per-actor counts) when
+//! it says that it bootstrapped from truth (ADR-0014). Blobs the harness damaged are never judged.
 
 use crate::fixture::{runtime, wait_for, App, Store};
 use crate::gen_hist::{exec, pick_kind, Known, OpKind};
@@ -416,6 +423,13 @@ struct SumSeen {
 ///   checkpoint frame with a smaller to_seq lies between the earlier job's spawn frame and the
 ///   later checkpoint frame): identical summary text.
 fn judge_summary_history(r: &mut Report, store: &Store, fs: &[&Frame], cache_lossy: bool, stats: &mut Stats, wit: &dyn Fn(Value) -> Value) -> SumSeen {
+    judge_summary_history_except(r, store, fs, cache_lossy, stats, wit, &BTreeSet::new())
+}
+
+/// `tampered`: summary artifacts whose blob the harness itself destroyed / rewrote after they were
+/// judged; what the blob holds now says nothing about the summarizer, so they are not judged again
+/// (they still count as the base they are named as: the checkpoint frame says which cut they cover).
+fn judge_summary_history_except(r: &mut Report, store: &Store, fs: &[&Frame], cache_lossy: bool, stats: &mut Stats, wit: &dyn Fn(Value) -> Value, tampered: &BTreeSet<String>) -> SumSeen {
     struct Auto {
         idx: usize,
         spawn_idx: usize,
@@ -426,12 +440,16 @@ fn judge_summary_history(r: &mut Report, store: &Store, fs: &[&Frame], cache_los
     }
     let mut seen = SumSeen::default();
     let mut msg_seqs: Vec<u64> = Vec::new();
+    let mut msg_actors: Vec<(u64, &str)> = Vec::new();
     let mut spawn_at: HashMap<&str, usize> = HashMap::new();
     // (index in the stream, to_seq, artifact)
     let mut cks: Vec<(usize, u64, &str)> = Vec::new();
     for (i, f) in fs.iter().enumerate() {
         match f.ty() {
-            "continuity_message_appended" => msg_seqs.push(f.seq()),
+            "continuity_message_appended" => {
+                msg_seqs.push(f.seq());
+                msg_actors.push((f.seq(), f.s("actor_id")));
+            }
             "continuity_job_spawned" if f.s("job_kind") == JOB_KIND => {
                 spawn_at.entry(f.s("job_id")).or_insert(i);
             }
@@ -440,10 +458,31 @@ fn judge_summary_history(r: &mut Report, store: &Store, fs: &[&Frame], cache_los
         }
     }
     let msgs_in = |lo_excl: u64, hi_incl: u64| msg_seqs.iter().filter(|s| **s > lo_excl && **s <= hi_incl).count() as u64;
+    // "- delta_actors: a=3, b=1" as documented: per-actor message counts of the window, count
+    // descending then actor ascending, the first six
+    let actors_in = |lo_excl: u64, hi_incl: u64| -> String {
+        let mut c: BTreeMap<&str, u64> = BTreeMap::new();
+        for (s, a) in &msg_actors {
+            if *s > lo_excl && *s <= hi_incl {
+                *c.entry(a).or_insert(0) += 1;
+            }
+        }
+        let mut v: Vec<(&str, u64)> = c.into_iter().collect();
+        v.sort_by(|a, b| b.1.cmp(&a.1).then(a.0.cmp(b.0)));
+        if v.is_empty() {
+            "none".to_string()
+        } else {
+            v.iter().take(6).map(|(a, n)| format!("{a}={n}")).collect::<Vec<_>>().join(", ")
+        }
+    };
     let mut autos: Vec<Auto> = Vec::new();
     let mut seen_art: BTreeSet<&str> = BTreeSet::new();
     for &(idx, to_seq, art) in &cks {
         if to_seq == u64::MAX || !seen_art.insert(art) {
+            continue;
+        }
+        if tampered.contains(art) {
+            stats.c("auto_summaries_not_rejudged_blob_destroyed_by_the_harness");
             continue;
         }
         // unreadable artifacts are judged by check_summary where the frame is judged
@@ -540,6 +579,27 @@ fn judge_summary_history(r: &mut Report, store: &Store, fs: &[&Frame], cache_los
                 continue;
             }
             stats.c("auto_summaries_delta_window_equal_to_truth");
+            if restart && a.info.base.is_some() {
+                stats.c("auto_summaries_bootstrapped_over_an_unusable_base_covering_the_whole_history");
+            }
+            // the per-actor counts of the same window (only where every actor id is a plain token)
+            let plain = msg_actors.iter().all(|(_, a)| !a.is_empty() && a.chars().all(|c| c.is_ascii_alphanumeric() || c == '-' || c == '_'));
+            let got = a.info.md.lines().take(24).find_map(|l| l.strip_prefix("- delta_actors: ")).map(|x| x.trim_end().to_string());
+            if let (true, Some(got)) = (plain, got) {
+                let want = actors_in(lo, a.to_seq);
+                if got != want {
+                    r.violation(
+                        &format!("C09/summary_delta_window_wrong/{}/actors", if restart { "from_truth" } else { "after_base" }),
+                        &format!(
+                            "the summary of the auto checkpoint at to_seq {} reports delta_actors '{got}'; the messages in ({lo}, {}] give '{want}'",
+                            a.to_seq, a.to_seq
+                        ),
+                        w(json!({"window_start_exclusive": lo, "expected_delta_actors": want})),
+                    );
+                    continue;
+                }
+                stats.c("auto_summaries_delta_actors_equal_to_truth");
+            }
         }
     }
     // per pair of summaries of one cut
@@ -3021,6 +3081,409 @@ fn directed_schedule_plans_twice(r: &mut Report, rt: &tokio::runtime::Runtime, s
 }
 
 // ---------------------------------------------------------------------------------------------
+// summary artifact faults between compaction rounds: the blob of an earlier checkpoint's summary is
+// lost / damaged / a legacy metadata-only placeholder when the next round wants it as its base
+
+const FAULT_TARGETS: &[&str] = &["latest_checkpoint", "older_checkpoint", "all_checkpoints", "manual_checkpoint", "none"];
+const FAULT_KINDS: &[&str] = &["deleted", "truncated_to_zero", "truncated_half", "garbage", "replaced_by_directory", "json_of_another_schema", "legacy_placeholder_text"];
+
+#[derive(Clone, Debug)]
+struct FaultStep {
+    /// index into FAULT_TARGETS / FAULT_KINDS
+    target: usize,
+    kind: usize,
+    /// messages appended after the fault, in strides (at least one new cut)
+    grow_strides: usize,
+    extra: usize,
+    schedule: bool,
+    http: bool,
+    max_new: u32,
+    /// the round after the fault uses this stride (None: the thread's stride)
+    stride: Option<u64>,
+    restart: bool,
+    forks: bool,
+}
+
+#[derive(Clone, Debug)]
+struct FaultPlan {
+    messages: usize,
+    density: u64,
+    stride: u64,
+    first_max_new: u32,
+    /// manual checkpoint before the first round: 0 none, 1 ordinary text, 2 text that is a legacy
+    /// metadata-only placeholder (ADR-0014: such a base is not usable, the summarizer bootstraps)
+    manual: u8,
+    steps: Vec<FaultStep>,
+}
+
+impl FaultPlan {
+    fn random(cfg: &Cfg, rng: &mut Rng) -> FaultPlan {
+        let stride = *rng.pick(&[1u64, 2, 2, 3, 5]);
+        let messages = stride as usize + rng.usize(cfg.tier.pick(24, 60));
+        let n = 1 + rng.usize(3);
+        FaultPlan {
+            messages,
+            density: *rng.pick(&[0u64, 0, 20, 40]),
+            stride,
+            first_max_new: *rng.pick(&[1u32, 2, 32]),
+            manual: *rng.pick(&[0u8, 0, 1, 2]),
+            steps: (0..n)
+                .map(|_| FaultStep {
+                    target: *rng.pick(&[0usize, 0, 0, 1, 2, 2, 3, 3, 4]),
+                    kind: rng.usize(FAULT_KINDS.len()),
+                    grow_strides: 1 + rng.usize(3),
+                    extra: rng.usize(stride as usize),
+                    schedule: rng.chance(1, 3),
+                    http: rng.chance(1, 3),
+                    max_new: *rng.pick(&[1u32, 1, 2, 3, 32]),
+                    stride: if rng.chance(1, 5) { Some(*rng.pick(&[1u64, 2, 3])) } else { None },
+                    restart: rng.chance(1, 4),
+                    forks: rng.chance(1, 4),
+                })
+                .collect(),
+        }
+    }
+    fn describe(&self) -> Value {
+        let steps: Vec<Value> = self
+            .steps
+            .iter()
+            .map(|s| {
+                json!({"fault_target": FAULT_TARGETS[s.target.min(4)], "fault": FAULT_KINDS[s.kind.min(6)], "then_messages": format!("{}*stride+{}", s.grow_strides, s.extra),
+                       "then": {"op": if s.schedule {"schedule"} else {"auto"}, "transport": if s.http {"http"} else {"api"}, "max_new": s.max_new, "stride": s.stride},
+                       "restart_before": s.restart, "fork_pair_before": s.forks})
+            })
+            .collect();
+        let manual = ["none", "ordinary_text", "legacy_placeholder_text"][self.manual.min(2) as usize];
+        json!({"messages": self.messages, "other_frame_density_pct": self.density, "stride": self.stride, "first_round_max_new": self.first_max_new,
+               "manual_checkpoint_first": manual, "steps": steps})
+    }
+}
+
+/// What the compat (pre v0.2) summarizer wrote: the metadata header only.
+fn legacy_placeholder_text(stride: u64, ordinal: u64, to_seq: u64, to_message_id: &str) -> String {
+    format!(
+        "# Compaction summary (auto)\n\n- kind: cumulative_v1\n- cut_rule_id: stride_messages_v1/{stride}\n- stride_messages: {stride}\n- target_message_ordinal: {ordinal}\n- to_seq: {to_seq}\n- to_message_id: {to_message_id}\n"
+    )
+}
+
+fn viol_total(r: &Report) -> u64 {
+    r.violations.iter().map(|v| v.count).sum()
+}
+
+/// Damage one summary blob. false = nothing was changed.
+fn damage_blob(store: &Store, art: &str, kind: usize, rng: &mut Rng) -> bool {
+    if art.is_empty() || art.contains('/') || art.contains("..") {
+        return false;
+    }
+    let path = store.ws.join(".rip").join("artifacts").join("blobs").join(art);
+    let Ok(meta) = std::fs::symlink_metadata(&path) else {
+        return false;
+    };
+    if !meta.is_file() {
+        return false;
+    }
+    let bytes = std::fs::read(&path).unwrap_or_default();
+    match kind {
+        0 => std::fs::remove_file(&path).is_ok(),
+        1 => std::fs::write(&path, b"").is_ok(),
+        2 => std::fs::write(&path, &bytes[..bytes.len() / 2]).is_ok(),
+        3 => {
+            let n = 1 + rng.usize(300);
+            std::fs::write(&path, rng.bytes(n)).is_ok()
+        }
+        4 => std::fs::remove_file(&path).is_ok() && std::fs::create_dir(&path).is_ok(),
+        5 => std::fs::write(&path, br#"{"schema":"rv.something_else.v1","kind":"cumulative_v1","summary_markdown":"x"}"#).is_ok(),
+        _ => {
+            // the same artifact with the text of a compat placeholder
+            let Ok(mut v) = serde_json::from_slice::<Value>(&bytes) else {
+                return std::fs::remove_file(&path).is_ok();
+            };
+            let to_seq = v.pointer("/coverage/to_seq").and_then(|x| x.as_u64()).unwrap_or(0);
+            let mid = v.pointer("/coverage/to_message_id").and_then(|x| x.as_str()).unwrap_or("").to_string();
+            v["summary_markdown"] = json!(legacy_placeholder_text(2, 2, to_seq, &mid));
+            std::fs::write(&path, serde_json::to_vec(&v).unwrap_or_default()).is_ok()
+        }
+    }
+}
+
+fn summary_fault_run(r: &mut Report, rt: &tokio::runtime::Runtime, rng: &mut Rng, stats: &mut Stats, plan: &FaultPlan, meta0: Value) {
+    let store = Store::new("c09a");
+    let app = match App::open(&store, None) {
+        Ok(a) => a,
+        Err(e) => {
+            r.inconclusive(&format!("summary fault: cannot open engine: {e}"));
+            return;
+        }
+    };
+    let Ok(thread) = app.store().ensure_default() else {
+        r.inconclusive("summary fault: ensure_default failed");
+        return;
+    };
+    let mut ctx = Ctx {
+        rt,
+        store: &store,
+        app,
+        thread,
+    };
+    let mut meta = meta0;
+    meta["plan"] = plan.describe();
+    let mut known = Known::default();
+    let stride = plan.stride.max(1);
+    grow(&ctx, &mut known, rng, plan.messages, "c09a", plan.density);
+    // artifacts the harness damaged (never judged as summaries again) and manual checkpoints placed
+    let mut tampered: BTreeSet<String> = BTreeSet::new();
+    let mut manual_arts: Vec<String> = Vec::new();
+    let place_manual = |ctx: &Ctx, rng: &mut Rng, legacy: bool, upper_half: bool| -> Option<String> {
+        let (_, m) = current_model(ctx).ok()?;
+        if m.msgs.is_empty() {
+            return None;
+        }
+        let lo = if upper_half { m.msgs.len() / 2 } else { 0 };
+        let k = lo + rng.usize(m.msgs.len() - lo);
+        let (sq, id) = m.msgs[k].clone();
+        let text = if legacy { legacy_placeholder_text(stride, k as u64 + 1, sq, &id) } else { format!("manual summary of the first {} messages", k + 1) };
+        let v = call_manual(
+            ctx,
+            &ctx.thread,
+            &ManualReq {
+                class: "boundary_seq",
+                markdown: Some(text),
+                artifact: None,
+                to_message_id: None,
+                to_seq: Some(sq),
+                stride: None,
+                http: rng.bool(),
+            },
+        )
+        .ok()?;
+        v.get("summary_artifact_id").and_then(|x| x.as_str()).map(|x| x.to_string())
+    };
+    if plan.manual > 0 {
+        if let Some(a) = place_manual(&ctx, rng, plan.manual == 2, false) {
+            manual_arts.push(a);
+            stats.c(if plan.manual == 2 { "summary_fault_manual_checkpoints_with_legacy_placeholder_text" } else { "summary_fault_manual_checkpoints" });
+        }
+    }
+    // judge every auto summary in the log (those whose blob the harness damaged excepted)
+    let judge = |r: &mut Report, stats: &mut Stats, tampered: &BTreeSet<String>, thread: &str, meta: &Value| -> bool {
+        let Ok(frames) = truth::parse_log(&store.log_bytes_settled()) else {
+            r.inconclusive("summary fault: log unreadable");
+            return false;
+        };
+        let Some(m) = model_of(&frames, thread) else {
+            return false;
+        };
+        let fs = truth::stream(&frames, "continuity", thread);
+        let lossy = !comp_cache_lost(&store, thread, &m).is_empty();
+        let wit = |d: Value| {
+            let mut w = meta.clone();
+            w["detail"] = d;
+            w
+        };
+        let before = viol_total(r);
+        judge_summary_history_except(r, &store, &fs, lossy, stats, &wit, tampered);
+        viol_total(r) == before
+    };
+    let exec_round = |r: &mut Report, ctx: &Ctx, stats: &mut Stats, rng: &mut Rng, q: &mut ExecReq, known: &mut Known, meta: &Value, round: usize| -> Option<ExecSeen> {
+        // make sure the round has a cut to checkpoint
+        let s = q.stride.unwrap_or(1).max(1);
+        let plannable = current_model(ctx).map(|(_, m)| !m.plan(s, clamp_u32(q.max_new)).is_empty()).unwrap_or(false);
+        if !plannable {
+            grow(ctx, known, rng, s as usize, "c09a", 0);
+        }
+        let mut w = meta.clone();
+        w["round"] = json!(round);
+        run_exec(r, ctx, stats, q, &w)
+    };
+    let mut q0 = ExecReq {
+        schedule: false,
+        stride: Some(stride),
+        max_new: Some(plan.first_max_new),
+        block: Some(false),
+        execute: Some(true),
+        dry_run: Some(false),
+        http: false,
+    };
+    let Some(first) = exec_round(r, &ctx, stats, rng, &mut q0, &mut known, &meta, 0) else {
+        return;
+    };
+    if !first.executed || !judge(r, stats, &tampered, &ctx.thread, &meta) {
+        return;
+    }
+    for (k, step) in plan.steps.iter().enumerate() {
+        let Ok((_, m)) = current_model(&ctx) else {
+            return;
+        };
+        // the fault
+        let latest = m.latest_checkpoint().map(|c| c.art.clone());
+        let mut victims: Vec<String> = Vec::new();
+        match step.target {
+            0 => victims.extend(latest.clone()),
+            1 => {
+                let older: Vec<&Ck> = m.ckpts.iter().filter(|c| Some(&c.art) != latest.as_ref()).collect();
+                if older.is_empty() {
+                    victims.extend(latest.clone());
+                } else {
+                    victims.push(rng.pick(&older).art.clone());
+                }
+            }
+            2 => victims.extend(m.ckpts.iter().map(|c| c.art.clone())),
+            3 => {
+                // a manual checkpoint of the upper half of the thread: the next round's base unless
+                // an auto checkpoint covers more
+                if manual_arts.is_empty() || rng.bool() {
+                    if let Some(a) = place_manual(&ctx, rng, false, true) {
+                        manual_arts.push(a);
+                        stats.c("summary_fault_manual_checkpoints");
+                    }
+                }
+                victims.extend(manual_arts.last().cloned());
+            }
+            _ => {}
+        }
+        victims.sort();
+        victims.dedup();
+        let mut hit = 0u64;
+        for v in &victims {
+            if damage_blob(&store, v, step.kind, rng) {
+                tampered.insert(v.clone());
+                hit += 1;
+            }
+        }
+        stats.n("summary_blobs_damaged_between_rounds", hit);
+        stats.c(&format!("summary_fault_steps/{}/{}", FAULT_TARGETS[step.target.min(4)], if hit > 0 { FAULT_KINDS[step.kind.min(6)] } else { "no_blob_hit" }));
+        // the thread goes on
+        grow(&ctx, &mut known, rng, step.grow_strides * stride as usize + step.extra, "c09a", plan.density);
+        if step.restart {
+            let thread = ctx.thread.clone();
+            drop(ctx);
+            stats.c("restarts");
+            let app = match App::open(&store, None) {
+                Ok(a) => a,
+                Err(e) => {
+                    r.inconclusive(&format!("summary fault: reopen failed: {e}"));
+                    return;
+                }
+            };
+            ctx = Ctx {
+                rt,
+                store: &store,
+                app,
+                thread,
+            };
+        }
+        let mut w = meta.clone();
+        w["after_fault_step"] = json!(k);
+        // the read side does not depend on the blobs
+        probe_status(r, &ctx, stats, rng, &w);
+        probe_cut_points(r, &ctx, stats, rng, &w);
+        if step.forks {
+            probe_determinism(r, &ctx, stats, rng, &w);
+        }
+        // which base will the round meet? (the checkpoint with the greatest to_seq below the cut)
+        let mut q = ExecReq {
+            schedule: step.schedule,
+            stride: Some(step.stride.unwrap_or(stride)),
+            max_new: Some(step.max_new),
+            block: Some(false),
+            execute: Some(true),
+            dry_run: Some(false),
+            http: step.http,
+        };
+        let Some(seen) = exec_round(r, &ctx, stats, rng, &mut q, &mut known, &meta, k + 1) else {
+            return;
+        };
+        if !seen.executed {
+            stats.c("summary_fault_rounds_without_work");
+            continue;
+        }
+        // every summary written after the fault is readable and covers its cut (run_exec), names a
+        // base of an earlier cut and reports the window it read (all of 0..to_seq when it says that it
+        // bootstrapped from truth)
+        let mut unusable_base = 0u64;
+        for c in &seen.created {
+            if let Some(info) = sum_info(&store, &c.1) {
+                let boot = info.note.as_deref().map(|n| n.starts_with("bootstrap_from_truth")).unwrap_or(false);
+                let base_damaged = info.base.as_ref().map(|b| tampered.contains(b)).unwrap_or(false);
+                if boot {
+                    unusable_base += 1;
+                }
+                r.distinct_str(&format!(
+                    "fault|{}|{}|{}|{}|{}|boot={boot}|base_damaged={base_damaged}",
+                    FAULT_TARGETS[step.target.min(4)],
+                    FAULT_KINDS[step.kind.min(6)],
+                    q.op(),
+                    q.http,
+                    seen.created.len().min(3)
+                ));
+            }
+        }
+        stats.n("summaries_created_after_a_fault", seen.created.len() as u64);
+        stats.n("summaries_created_after_a_fault_over_an_unusable_base", unusable_base);
+        if unusable_base > 0 {
+            stats.nontrivial += 1;
+        }
+        if !judge(r, stats, &tampered, &ctx.thread, &meta) {
+            return;
+        }
+        // repeated with nothing new: appends nothing (also with the damaged blobs around)
+        match run_exec(r, &ctx, stats, &q, &w) {
+            Some(s) if s.ok && s.planned_empty => stats.c("immediate_repeats_noop_zero_bytes"),
+            Some(s) if s.ok => {
+                if !judge(r, stats, &tampered, &ctx.thread, &meta) {
+                    return;
+                }
+            }
+            _ => return,
+        }
+    }
+    stats.c("summary_fault_cases");
+}
+
+fn summary_fault_case(cfg: &Cfg, r: &mut Report, rt: &tokio::runtime::Runtime, rng: &mut Rng, idx: u64, stats: &mut Stats) {
+    let plan = FaultPlan::random(cfg, rng);
+    summary_fault_run(r, rt, rng, stats, &plan, json!({"case": idx, "mode": "summary_fault"}));
+}
+
+/// Directed: the base of the second round is lost / a legacy placeholder / garbage.
+fn directed_summary_fault(r: &mut Report, rt: &tokio::runtime::Runtime, stats: &mut Stats, only: Option<u64>) {
+    // messages, stride, first max_new, manual, (target, kind, schedule, http, max_new)
+    let variants: [(usize, u64, u32, u8, (usize, usize, bool, bool, u32)); 4] = [
+        (2, 2, 1, 0, (0, 0, false, false, 1)),
+        (7, 3, 32, 0, (2, 3, true, true, 1)),
+        (5, 2, 1, 2, (4, 0, false, true, 1)),
+        (6, 2, 32, 0, (3, 4, false, false, 32)),
+    ];
+    for (v, (messages, stride, first_max_new, manual, (target, kind, schedule, http, max_new))) in variants.iter().cloned().enumerate() {
+        if only.map(|o| o != v as u64).unwrap_or(false) {
+            continue;
+        }
+        let plan = FaultPlan {
+            messages,
+            density: 0,
+            stride,
+            first_max_new,
+            manual,
+            steps: vec![FaultStep {
+                target,
+                kind,
+                grow_strides: 1,
+                extra: 0,
+                schedule,
+                http,
+                max_new,
+                stride: None,
+                restart: v == 1,
+                forks: v == 0,
+            }],
+        };
+        let mut rng = Rng::derive(0xC09A, v as u64);
+        summary_fault_run(r, rt, &mut rng, stats, &plan, json!({"directed": "summary_fault", "variant": v}));
+        stats.c("directed_cases");
+    }
+}
+
+// ---------------------------------------------------------------------------------------------
 
 
 pub fn run(cfg: &Cfg) -> i32 {
@@ -3055,6 +3518,8 @@ pub fn run(cfg: &Cfg) -> i32 {
         if let Some(d) = w.get("directed") {
             if d.as_str() == Some("same_cut") {
                 directed_same_cut(&mut r, &rt, &s, &mut stats, w.get("variant").and_then(|x| x.as_u64()));
+            } else if d.as_str() == Some("summary_fault") {
+                directed_summary_fault(&mut r, &rt, &mut stats, w.get("variant").and_then(|x| x.as_u64()));
             } else {
                 directed_schedule_plans_twice(&mut r, &rt, &s, &mut stats);
             }
@@ -3071,6 +3536,8 @@ pub fn run(cfg: &Cfg) -> i32 {
 
     directed_schedule_plans_twice(&mut r, &rt, &s, &mut stats);
     directed_same_cut(&mut r, &rt, &s, &mut stats, None);
+    s.reset();
+    directed_summary_fault(&mut r, &rt, &mut stats, None);
     let max_cases = cfg.tier.pick(360u64, 1_000_000u64);
     let mut case = 0u64;
     while case < max_cases && !r.over(cfg) {
@@ -3105,4 +3572,13 @@ fn one_case(cfg: &Cfg, r: &mut Report, rt: &tokio::runtime::Runtime, s: &Arc<Sch
         "sequential"
     };
     stats.n(&format!("wall_ms_in_{kind}_cases"), t0.elapsed().as_millis() as u64);
+    // in addition (own random stream, the cases above are unchanged): summary artifact faults
+    // between compaction rounds
+    if idx % 8 == 1 && !r.over(cfg) {
+        let t1 = Instant::now();
+        s.reset();
+        let mut frng = Rng::derive(seed ^ 0xA27F_AC75, idx);
+        summary_fault_case(cfg, r, rt, &mut frng, idx, stats);
+        stats.n("wall_ms_in_summary_fault_cases", t1.elapsed().as_millis() as u64);
+    }
 }
